@@ -118,4 +118,88 @@ theorem wproj_lift (c : Cfg) (wid : Loc → Option Nat) (s : State) (ls ls' : WL
          simp_all [wL2, Wq.run, step, WRel, WLPc.abs, wObs]
          try (split <;> simp_all [Wq.run, step]))
 
+/-- **lift of a work function call, user work**: at `ready cb nxt`, if the node is the head of L2's batch (the
+discipline), the work is a user work whose body leaves the worker's thread `idle`, and the traversal saw the end of the
+list only if the rest of the batch is empty, then `run cb` is `wRunBegin id ; wRunEnd ; [wInvDone]`; the work is logged
+as started exactly once more -/
+theorem wproj_lift_run (c : Cfg) (wid : Loc → Option Nat) (s : State) (ls ls' : WLState) (cb : Loc) (id : Nat)
+    (hl : wstep ls (.run cb) = some ls') (hrel : WRel c s ls) (hid : nodeId wid cb = some id)
+    (hb : s.batch.head? = some id) (hcw : s.cw id = none) (hidle : s.tpc 0 = .idle)
+    (hend : ls.pc = .ready cb (.int 0) → s.batch.tail = []) :
+    ∃ s', Wq.run c s (wL2 wid ls (.run cb)) = some s' ∧ WRel c s' ls' ∧
+      s'.doneLog = s.doneLog ++ [id] ∧ s'.runN id = s.runN id + 1 ∧ s'.fin id = true := by
+  obtain ⟨⟨nxt, hpc, hcase⟩, hcnt⟩ := wstep_run ls ls' cb hl
+  obtain ⟨pc, cnt, rt⟩ := ls
+  obtain ⟨pc', cnt', rt'⟩ := ls'
+  obtain ⟨hw, hc, hr⟩ := hrel
+  simp only at hpc hcnt hw hc hr hend
+  subst hpc
+  have hrt : rt' = rt := by
+    simp only [wstep] at hl
+    rw [if_pos True.intro] at hl
+    split at hl
+    · split at hl <;> simp at hl; exact hl.2.2.symm
+    · simp at hl; exact hl.2.2.symm
+  subst hrt
+  simp only [WLPc.abs] at hw
+  rcases hcase with ⟨rfl, hp'⟩ | ⟨c2, rfl, hp'⟩
+  · simp only at hp'
+    subst hp'
+    have ht := hend rfl
+    simp [wL2, hid, Wq.run, step, hw, hb, hcw, hidle, ht, WRel, WLPc.abs, hc, hcnt]
+    rcases hr with h | h
+    · simp at h
+    · exact h
+  · simp only at hp'
+    subst hp'
+    simp [wL2, hid, Wq.run, step, hw, hb, hcw, hidle, WRel, WLPc.abs, hc, hcnt]
+    rcases hr with h | h
+    · simp at h
+    · exact h
+
+/-- first half for an arbitrary work: `wRunBegin id` is enabled at `ready` when the node is the head of L2's batch; it
+leads to `run` (user work) or `cSub` (completion work item), removes the work from the batch and logs it -/
+theorem wproj_run_begin (c : Cfg) (wid : Loc → Option Nat) (s : State) (ls ls' : WLState) (cb : Loc) (id : Nat)
+    (hl : wstep ls (.run cb) = some ls') (hrel : WRel c s ls) (hb : s.batch.head? = some id) :
+    ∃ s1, step c s (.wRunBegin id) = some s1 ∧ s1.wpc = (if (s.cw id).isSome = true then .cSub else .run) ∧
+      s1.cur = some id ∧ s1.batch = s.batch.tail ∧ s1.cnt = s.cnt ∧ s1.doneLog = s.doneLog ++ [id] ∧
+      s1.runN id = s.runN id + 1 := by
+  obtain ⟨⟨nxt, hpc, -⟩, -⟩ := wstep_run ls ls' cb hl
+  obtain ⟨hw, -, -⟩ := hrel
+  rw [hpc] at hw
+  simp only [WLPc.abs] at hw
+  simp [step, hw, hb]
+
+/-- second half: from any state back at `inv` with the count incremented (i.e. after `wRunEnd` / `cPut`), the pending
+`[wInvDone]` re-establishes the relation with the local successor of `run cb` -/
+theorem wproj_run_end (c : Cfg) (s s2 : State) (ls ls' : WLState) (cb : Loc)
+    (hl : wstep ls (.run cb) = some ls') (hrel : WRel c s ls) (h2 : s2.wpc = .inv) (hc2 : s2.cnt = s.cnt + 1)
+    (hend : ls.pc = .ready cb (.int 0) → s2.batch = []) :
+    ∃ s3, Wq.run c s2 (if ls.pc = .ready cb (.int 0) then [.wInvDone] else []) = some s3 ∧ WRel c s3 ls' := by
+  obtain ⟨⟨nxt, hpc, hcase⟩, hcnt⟩ := wstep_run ls ls' cb hl
+  obtain ⟨pc, cnt, rt⟩ := ls
+  obtain ⟨pc', cnt', rt'⟩ := ls'
+  obtain ⟨hw, hc, hr⟩ := hrel
+  simp only at hpc hcnt hw hc hr hend
+  subst hpc
+  have hrt : rt' = rt := by
+    simp only [wstep] at hl
+    rw [if_pos True.intro] at hl
+    split at hl
+    · split at hl <;> simp at hl; exact hl.2.2.symm
+    · simp at hl; exact hl.2.2.symm
+  subst hrt
+  have hr' : rt' = c.rt := by
+    rcases hr with h | h
+    · simp at h
+    · exact h
+  rcases hcase with ⟨rfl, hp'⟩ | ⟨c2, rfl, hp'⟩
+  · simp only at hp'
+    subst hp'
+    have hb := hend rfl
+    simp [Wq.run, step, h2, hb, WRel, WLPc.abs, hc2, hc, hcnt, hr']
+  · simp only at hp'
+    subst hp'
+    simp [Wq.run, WRel, WLPc.abs, h2, hc2, hc, hcnt, hr']
+
 end UrcuVerif.Src.WqL
